@@ -21,9 +21,95 @@ type VStream struct {
 	Elem types.Type
 }
 type VSlice struct {
-	Arr  *Term // (Array Int X)
+	Arr  *Term // (Array Int X); unused for slices of struct values
 	Len  *Term
 	Elem types.Type
+	// slice of struct values: one array per field (struct of arrays); elements are copied by value, never aliased
+	Fields map[string]*Term
+}
+
+// element of a slice of struct values (a value, i.e. a snapshot: later writes to the slice do not affect it)
+type VElem struct {
+	Slice VSlice
+	Idx   *Term
+}
+
+func structValueElem(t types.Type) *types.Struct {
+	if _, isPtr := t.Underlying().(*types.Pointer); isPtr {
+		return nil
+	}
+	if isTimeType(t) {
+		return nil
+	}
+	s, _ := t.Underlying().(*types.Struct)
+	return s
+}
+
+// arrays for every field of a struct-valued slice, produced by mk(fieldName, fieldSort)
+func (e *Engine) structFields(st *types.Struct, mk func(name string, s Sort) *Term) map[string]*Term {
+	m := map[string]*Term{}
+	for i := 0; i < st.NumFields(); i++ {
+		f := st.Field(i)
+		fs := e.safeSort(f.Type())
+		if fs == "?" {
+			continue
+		}
+		if _, isSl := f.Type().Underlying().(*types.Slice); isSl {
+			continue
+		}
+		m[f.Name()] = mk(f.Name(), fs)
+	}
+	return m
+}
+
+func (e *Engine) elemField(el VElem, field string) Value {
+	st := structValueElem(el.Slice.Elem)
+	arr, ok := el.Slice.Fields[field]
+	if st == nil || !ok {
+		unsup("field %s of a slice element is not modelled", field)
+	}
+	for i := 0; i < st.NumFields(); i++ {
+		if st.Field(i).Name() == field {
+			return e.wrap(mkSelect(arr, el.Idx), st.Field(i).Type())
+		}
+	}
+	unsup("no field %s", field)
+	return nil
+}
+
+// read element idx of a slice (struct-valued slices yield VElem)
+func (e *Engine) sliceElem(sl VSlice, idx *Term) Value {
+	if sl.Fields != nil {
+		return VElem{Slice: sl, Idx: idx}
+	}
+	return e.wrap(mkSelect(sl.Arr, idx), sl.Elem)
+}
+
+// store v at idx (struct values are copied field by field)
+func (e *Engine) sliceStore(sl VSlice, idx *Term, v Value, st *State) VSlice {
+	if sl.Fields == nil {
+		var et *Term
+		if s, ok := v.(VStream); ok {
+			et = s.ID
+		} else {
+			et = term(v)
+		}
+		return VSlice{Arr: mkStore(sl.Arr, idx, et), Len: sl.Len, Elem: sl.Elem}
+	}
+	n := VSlice{Len: sl.Len, Elem: sl.Elem, Fields: map[string]*Term{}}
+	for f, arr := range sl.Fields {
+		var fv Value
+		switch x := v.(type) {
+		case VElem:
+			fv = e.elemField(x, f)
+		case VTerm:
+			fv = e.readField(st, VTerm{T: x.T, Typ: sl.Elem}, f)
+		default:
+			unsup("store of %T into a slice of structs", v)
+		}
+		n.Fields[f] = mkStoreK(arr, idx, term(fv))
+	}
+	return n
 }
 
 // Go map: domain array plus value arrays (slice-valued maps keep array and length per key)
@@ -33,6 +119,11 @@ type VMap struct {
 	Len  *Term // (Array K Int) for slice values, nil otherwise
 	Key  types.Type
 	Elem types.Type // value type (possibly a slice type)
+}
+
+// address of a local variable (only passed to external functions that fill it in, e.g. Decode(&v), Scan(&x))
+type VAddr struct {
+	Obj types.Object
 }
 type VClosure struct {
 	Lit *ast.FuncLit
@@ -346,10 +437,13 @@ func (e *Engine) freshValue(base string, t types.Type, st *State) Value {
 		st.assume(mkCmp(">=", e.slen(id), mkInt(0)))
 		return VStream{ID: id, Elem: u.Elem()}
 	case *types.Slice:
-		es := e.elemSort(u.Elem())
-		arr := e.fresh(base+".arr", arraySort(SInt, es))
 		ln := e.fresh(base+".len", SInt)
 		st.assume(mkCmp(">=", ln, mkInt(0)))
+		if sv := structValueElem(u.Elem()); sv != nil {
+			return VSlice{Len: ln, Elem: u.Elem(), Fields: e.structFields(sv, func(n string, fs Sort) *Term { return e.fresh(base+"."+n, arraySort(SInt, fs)) })}
+		}
+		es := e.elemSort(u.Elem())
+		arr := e.fresh(base+".arr", arraySort(SInt, es))
 		return VSlice{Arr: arr, Len: ln, Elem: u.Elem()}
 	case *types.Map:
 		return e.freshMap(base, u, st)
@@ -434,6 +528,9 @@ func (e *Engine) zeroValue(t types.Type) Value {
 	}
 	switch u := t.Underlying().(type) {
 	case *types.Slice:
+		if sv := structValueElem(u.Elem()); sv != nil {
+			return VSlice{Len: mkInt(0), Elem: u.Elem(), Fields: e.structFields(sv, func(n string, fs Sort) *Term { return mkConst("emptyarr_"+sortTag(fs), arraySort(SInt, fs)) })}
+		}
 		es := e.elemSort(u.Elem())
 		return VSlice{Arr: mkConst("emptyarr_"+sortTag(es), arraySort(SInt, es)), Len: mkInt(0), Elem: u.Elem()}
 	case *types.Chan:
